@@ -25,6 +25,7 @@ EXPLANATION = (
     "fact that this step yields the canonical digits (a non-linear invariant, 0 <= uval < x * base).")
 
 RULES = {
+    "C14-N": "no integer on this property's data path is narrowed by an implicit conversion (parameter handed to a narrower parameter, stored in a narrower field, or a narrow field behind a wider accessor)",
     "C14-B1": "every store into the caller's buffer is in bounds for every length >= 0; NUL stored whenever a byte remains",
     "C14-B2": "characters are stored at the running position, which advances by one per character and is returned; emission stops only on position >= len",
     "C14-T1": "initial divisor per radix is the largest power representable; other radixes normalised to 10 before use; digit alphabet 0-9A-F",
@@ -381,7 +382,18 @@ def rule_w(ck, prog):
         gb = C.const_of(a[3]) if base == 10 else a[3].strip_all_casts().get("path")
         gs = C.const_of(a[4])
         pass_ok = a[1].strip_all_casts().get("path") == f.params[1]["name"] and a[2].strip_all_casts().get("path") == f.params[2]["name"]
-        if gb == base and gs == sign and pass_ok:
+        # the wrapper adds nothing of its own: every return hands back the worker's count and it never writes the buffer itself
+        own_writes = [n for n, t in C.stores(f) if t.k in ("ArraySubscriptExpr", "UnaryOperator") and
+                      t.child(0).strip_all_casts().get("path") == f.params[1]["name"]]
+        S_ = K.summaries(prog)
+        pg_ = S_.pg(f)
+        bypass = pg_.exit in pg_.reachable([pg_.entry], blocked_edge=lambda e: e.kind == "elem" and e.node is calls[0])
+        if own_writes or bypass:
+            ck.violated("C14-W", st, K.loc(f, (own_writes or calls)[0]),
+                        "%s has a path of its own beside the call of %s (%s): digits produced there do not honour the radix / sign / "
+                        "length rules of the worker (for instance 5 in base 2 comes out as `5`)"
+                        % (name, callee, "it writes the buffer itself" if own_writes else "a return that bypasses the worker"))
+        elif gb == base and gs == sign and pass_ok:
             ck.holds("C14-W", st, K.loc(f, calls[0]), "(%s, %s)" % (base, "signed" if sign else "unsigned"))
         else:
             ck.violated("C14-W", st, K.loc(f, calls[0]), "%s passes (base %s, sign %s, buffer/len passed through: %s)" % (name, gb, gs, pass_ok))
@@ -425,6 +437,7 @@ def run(ck, fb, tier):
         rule_b2(ck, prog)
         rule_t1_u2(ck, prog)
         rule_w(ck, prog)
+        K.narrowing_rule(ck, prog, "C14-N", lambda f_: f_.name in ("UInt32ToStrBaseSign", "UInt64ToStrBaseSign", "SCPI_Int32ToStr", "SCPI_UInt32ToStrBase", "SCPI_Int64ToStr", "SCPI_UInt64ToStrBase", "SCPI_FloatToStr", "SCPI_DoubleToStr", "SCPI_dtostre", "scpi_ecvt", "SCPI_NumberToStr", "SCPI_ParamCopyText"))
         rule_t2(ck, prog)
     ck.trust("spec/bounds.json capacity contracts ((str, len) pairs)")
 
